@@ -1033,6 +1033,12 @@ func execSetup(secs []sx.S) (*ggql.Root, *world, sx.S) {
 		}
 		w.nodes[sx.Int(nl[1])] = gn
 	}
+	if u := section(secs, "unbind"); len(u) > 0 {
+		// an object type that is bound to no Go type (C08: the first member of a union, of which the graph holds no value)
+		old := execUnbind
+		execUnbind = sx.Int(u[0])
+		defer func() { execUnbind = old }()
+	}
 	queryNamed = 0
 	if qn := section(secs, "queryname"); len(qn) > 0 {
 		queryNamed = sx.Int(qn[0])
